@@ -23,8 +23,9 @@ import Gv.Oracle.CliExtract
 import Gv.Oracle.CliPssm
 import Gv.Oracle.CliStatsSeq
 import Gv.Oracle.CliDivide
+import Gv.Oracle.Regex
 import Gv.Oracle.Loop
 /-! oracle with every handler (see `Gv/Oracle/Loop.lean`) -/
 open Gv Gv.Oracle
 
-def main : IO Unit := runOracle [CliPhaseOps.handle, CliSWOps.handle, CliSplitOps.handle, CliExtractOps.handle, CliPssmOps.handle, CliStatsSeqOps.handle, CliDivideOps.handle, SeqOps.handle, BagOps.handle, RandOps.handle, SitesOps.handle, CleanOps.handle, StatsOps.handle, DedupOps.handle, MaskOps.handle, SWOps.handle, Models.handle, PoolOps.handle, DistOps.handle, PureOps.handle, FmtOps.handle, WeightsOps.handle, DetOps.handle, ProtDistOps.handle, CliOps.handle]
+def main : IO Unit := runOracle [RegexOps.handle, CliPhaseOps.handle, CliSWOps.handle, CliSplitOps.handle, CliExtractOps.handle, CliPssmOps.handle, CliStatsSeqOps.handle, CliDivideOps.handle, SeqOps.handle, BagOps.handle, RandOps.handle, SitesOps.handle, CleanOps.handle, StatsOps.handle, DedupOps.handle, MaskOps.handle, SWOps.handle, Models.handle, PoolOps.handle, DistOps.handle, PureOps.handle, FmtOps.handle, WeightsOps.handle, DetOps.handle, ProtDistOps.handle, CliOps.handle]
